@@ -103,6 +103,10 @@ def signal_enumeration(world, op, work, budget, r, evaluate, sigs=("INT", "TERM"
     finally:
         sw.close()
     total = inv0.cp
+    if total == 0 and any(e[0] == "spawn" for e in inv0.trace):
+        # the window in which signals are delivered opens when the program installs its SIGTERM handler
+        return [{"k": 0, "sig": "TERM", "where": "-", "code": inv0.code, "fired": False, "inflight": 0, "killed": False,
+                 "violations": [("no-SIGTERM-handler-installed-while-tasks-were-running", {"exit": inv0.code})]}], 0, True
     # half of a sample goes where the signal meets work in progress: the check points at which at least
     # one task process is in flight, plus the stretch right after each reap (finish_execution, recording
     # the version, destructors of the handle)
@@ -124,12 +128,21 @@ def signal_enumeration(world, op, work, budget, r, evaluate, sigs=("INT", "TERM"
             sig = "INT"     # the interesting one when SIGINT was inherited as ignored
         sw = SubWorld(world, work, "s%d" % k)
         try:
-            inv = sw.world.run_cond(sw.op(dict(op, signal={"sig": sig, "cp": k})))
+            sg = {"sig": sig, "cp": k}
+            if op.get("second_signal"):
+                # a second signal a few check points later: it lands while the first one is being handled
+                # (the SIGTERM loop, the abort report, the unwinding of the command); the distance is a
+                # function of (seed, k) only, so a replay repeats it
+                r2 = random.Random("%s/%d" % (op.get("second_signal"), k))
+                sg["then"] = [{"sig": r2.choice(sigs), "after": int(10 ** r2.uniform(0, 2.4))}]
+            inv = sw.world.run_cond(sw.op(dict(op, signal=sg)))
             snap = sim.snapshot(sw.dst / "proj")
             viol = evaluate(k, sig, inv, snap, sw)
             sent = [e for e in inv.trace if e[0] == "sigsent"]
+            again = [e for e in inv.trace if e[0] == "sigsent_again"]
             records.append({"k": k, "sig": sig, "where": inv.sig_where, "violations": viol,
-                            "code": inv.code, "fired": bool(sent),
+                            "code": inv.code, "fired": bool(sent), "again": len(again),
+                            "again_inflight": len(again[0][4]) if again else 0,
                             "inflight": len(sent[0][4]) if sent else 0, "killed": False})
         finally:
             sw.close()
